@@ -74,6 +74,10 @@ Tags(e) == e.blk \o (IF e.mvflag = 1 THEN ",missing" ELSE "")
            \o (IF e.mat.exc = "" /\ ~IsSym(e.mat.R) /\ Len(e.mat.diag) = e.n
                   /\ e.mat.diag = [l \in 1..e.n |-> 2 * LowerDiagHist(e.mat.R, Mv(e))[l]]
                THEN ",diag_twice_lower_triangle" ELSE "")
+\* resampling M lines from a histogram leaves the histogram alone and returns M lines (none if there is no line)
+StableAfterResampling(o) ==
+  /\ o.diag2 = o.diag /\ o.vert2 = o.vert /\ o.maxd2 = o.maxd /\ o.maxv2 = o.maxv
+  /\ o.rs_mass[1] = (IF o.maxd = 0 THEN 0 ELSE 7) /\ o.rs_mass[2] = (IF o.maxv = 0 THEN 0 ELSE 7)
 R_(clause, site, e) == <<"REJECT", clause, site, Tags(e)>>
 Verdict(e) ==
   IF e.mat.exc # "" THEN R_("Applicable", e.mat.exc, e)
@@ -90,6 +94,8 @@ Verdict(e) ==
   ELSE IF ~RRDef(e) THEN R_("RRDef", "recurrence_rate", e)
   ELSE IF ~Scalars(e) THEN R_("Scalars", "rqa measures", e)
   ELSE IF ~RProbDef(e) THEN R_("Scalars", "recurrence_probability", e)
+  ELSE IF ~StableAfterResampling(e.mat) THEN R_("Stable", "line distributions after resample_*line_dist", e)
+  ELSE IF e.hasseq = 1 /\ ~StableAfterResampling(e.seq) THEN R_("Stable", "line distributions after resample_*line_dist (sequential)", e)
   ELSE <<"ACCEPT", "", "", Tags(e)>>
 
 \* all verdicts, evaluated once at constant level (TLC caches LET definitions only there)
